@@ -19,6 +19,14 @@ fn key_bytes(keylen: usize, i: u8) -> Vec<u8> {
     v
 }
 
+/// Key function of the "tree" directories: up to 65536 distinct keys for every key length >= 2
+fn wide_key_bytes(keylen: usize, i: u16) -> Vec<u8> {
+    let mut v = vec![(i % 251) as u8; keylen];
+    v[0] = (i >> 8) as u8;
+    v[1] = i as u8;
+    v
+}
+
 fn bloom(name: &str) -> Option<BloomConfig> {
     match name {
         "none" => None,
@@ -58,7 +66,7 @@ async fn wait_indexes(dir: &Path, ids: &[usize]) {
 
 macro_rules! with_storage {
     ($keylen:expr, $body:ident, $($arg:expr),*) => {
-        match $keylen { 4 => $body::<4>($($arg),*).await, 8 => $body::<8>($($arg),*).await, 33 => $body::<33>($($arg),*).await, _ => panic!("keylen") }
+        match $keylen { 4 => $body::<4>($($arg),*).await, 8 => $body::<8>($($arg),*).await, 33 => $body::<33>($($arg),*).await, 400 => $body::<400>($($arg),*).await, _ => panic!("keylen") }
     };
 }
 
@@ -96,12 +104,59 @@ async fn generate<const N: usize>(dir: &Path, bloom_name: &str, group: usize, se
     Ok(())
 }
 
-async fn record<const N: usize>(dir: &Path, bloom_name: &str, group: usize) -> anyhow::Result<Value> {
+/// "tree" directories: many distinct keys per blob, so that the index files have inner B+tree nodes (several levels for long keys)
+async fn generate_tree<const N: usize>(dir: &Path, bloom_name: &str, group: usize, seed: u64, per_blob: &[usize]) -> anyhow::Result<()> {
+    let _ = std::fs::remove_dir_all(dir);
+    let mut s: Storage<ArrayKey<N>> = builder(dir, bloom_name, group).build()?;
+    s.init().await?;
+    let mut r = Lcg(seed | 1);
+    let mut opno = 0u64;
+    let mut base = 0u16;
+    for (b, n) in per_blob.iter().enumerate() {
+        // distinct keys of this blob in a shuffled order; every 7th key also gets an older version from the previous range
+        let mut order: Vec<u16> = (base..base + *n as u16).collect();
+        for i in (1..order.len()).rev() { let j = r.below(i as u64 + 1) as usize; order.swap(i, j); }
+        for (j, ki) in order.iter().enumerate() {
+            opno += 1;
+            let key = ArrayKey::<N>::from(wide_key_bytes(N, *ki).as_slice());
+            let val = Bytes::from(value(opno, 3 + r.below(60) as usize));
+            let ts = 1 + r.below(3);
+            match meta_pool(r.below(4)) { None => s.write(&key, val, BlobRecordTimestamp::new(ts)).await?, Some(m) => s.write_with(&key, val, BlobRecordTimestamp::new(ts), to_meta(&m)).await? }
+            if j % 7 == 3 {
+                // a second version of the same key (tie or newer), and now and then a version of a key of an earlier blob
+                opno += 1;
+                s.write(&key, Bytes::from(value(opno, 5)), BlobRecordTimestamp::new(ts + r.below(2))).await?;
+                if base > 0 && j % 21 == 3 {
+                    opno += 1;
+                    let old = ArrayKey::<N>::from(wide_key_bytes(N, r.below(base as u64) as u16).as_slice());
+                    s.write(&old, Bytes::from(value(opno, 9)), BlobRecordTimestamp::new(r.below(5))).await?;
+                }
+            }
+            if j % 19 == 5 {
+                s.delete(&key, BlobRecordTimestamp::new(ts + 1), true).await?;
+            }
+        }
+        base += *n as u16;
+        if b + 1 < per_blob.len() {
+            s.try_close_active_blob().await?;
+            s.try_create_active_blob().await?;
+        }
+    }
+    let closed: Vec<usize> = (0..per_blob.len() - 1).collect();
+    wait_indexes(dir, &closed).await;
+    tokio::time::sleep(Duration::from_millis(100)).await;
+    s.close().await?;
+    Ok(())
+}
+
+async fn record<const N: usize>(dir: &Path, bloom_name: &str, group: usize, wide: usize) -> anyhow::Result<Value> {
     let mut s: Storage<ArrayKey<N>> = builder(dir, bloom_name, group).build()?;
     s.init().await?;
     let mut keys = vec![];
-    for ki in 0..7u8 {
-        let key = ArrayKey::<N>::from(key_bytes(N, ki).as_slice());
+    let nkeys = if wide > 0 { wide } else { 7 };
+    for ki in 0..nkeys as u16 {
+        let kb = if wide > 0 { wide_key_bytes(N, ki) } else { key_bytes(N, ki as u8) };
+        let key = ArrayKey::<N>::from(kb.as_slice());
         let read = match s.read(&key).await? { ReadResult::Found(d) => json!({"class": "Found", "len": d.len(), "hash": fnv(&d)}), ReadResult::Deleted(t) => { let t: u64 = t.into(); json!({"class": "Deleted", "ts": t}) }, ReadResult::NotFound => json!({"class": "NotFound"}) };
         let contains = match s.contains(&key).await? { ReadResult::Found(t) => { let t: u64 = t.into(); json!({"class": "Found", "ts": t}) }, ReadResult::Deleted(t) => { let t: u64 = t.into(); json!({"class": "Deleted", "ts": t}) }, ReadResult::NotFound => json!({"class": "NotFound"}) };
         let mut all = vec![];
@@ -123,12 +178,31 @@ async fn record<const N: usize>(dir: &Path, bloom_name: &str, group: usize) -> a
     }
     let counts = json!({"records_count": s.records_count().await, "blobs_count": s.blobs_count().await, "next_blob_id": s.next_blob_id()});
     s.close().await?;
-    Ok(json!({"keylen": N, "bloom": bloom_name, "group": group, "keys": keys, "counts": counts}))
+    Ok(json!({"keylen": N, "bloom": bloom_name, "group": group, "keyfn": if wide > 0 { "wide" } else { "small" }, "keys": keys, "counts": counts}))
 }
 
 #[tokio::main(flavor = "multi_thread", worker_threads = 2)]
 async fn main() -> anyhow::Result<()> {
     let out = PathBuf::from(std::env::args().nth(1).expect("output dir"));
+    if std::env::args().nth(2).as_deref() == Some("tree") {
+        // second batch (added later, same pinned tree): index files with inner nodes
+        let specs: Vec<(usize, &str, usize, u64, Vec<usize>)> = vec![
+            (8, "odd", 3, 41, vec![330, 90, 20]),
+            (33, "default80k", 2, 42, vec![200, 120]),
+            (400, "none", 4, 43, vec![150, 40, 12]),
+        ];
+        for (keylen, bloom_name, group, seed, per_blob) in specs {
+            let name = format!("k{}-{}-g{}-tree{}", keylen, bloom_name, group, per_blob.len());
+            let dir = out.join(&name);
+            with_storage!(keylen, generate_tree, &dir, bloom_name, group, seed, &per_blob)?;
+            let total: usize = per_blob.iter().sum();
+            let exp = with_storage!(keylen, record, &dir, bloom_name, group, total + 6)?;
+            std::fs::write(dir.join("expected.json"), serde_json::to_vec_pretty(&exp)?)?;
+            let _ = std::fs::remove_file(dir.join("pearl.lock"));
+            println!("{}: {} files", name, std::fs::read_dir(&dir)?.count());
+        }
+        return Ok(());
+    }
     let specs: Vec<(usize, &str, usize, u64, usize, bool)> = vec![
         (4, "none", 8, 11, 3, false), (4, "tiny", 2, 12, 4, true), (4, "default80k", 3, 13, 2, false),
         (8, "none", 8, 21, 4, true), (8, "odd", 2, 22, 3, false), (8, "default80k", 4, 23, 3, false),
@@ -138,7 +212,7 @@ async fn main() -> anyhow::Result<()> {
         let name = format!("k{}-{}-g{}-b{}", keylen, bloom_name, group, nblobs);
         let dir = out.join(&name);
         with_storage!(keylen, generate, &dir, bloom_name, group, seed, nblobs, big)?;
-        let exp = with_storage!(keylen, record, &dir, bloom_name, group)?;
+        let exp = with_storage!(keylen, record, &dir, bloom_name, group, 0)?;
         // the recording session rewrote nothing but may have re-dumped indexes: fine, they are part of the corpus
         std::fs::write(dir.join("expected.json"), serde_json::to_vec_pretty(&exp)?)?;
         let _ = std::fs::remove_file(dir.join("pearl.lock"));
